@@ -194,10 +194,105 @@ Proof.
   apply (bounded_mono evs p'); auto. unfold lenN' in A2. unfold lenN. lia.
 Qed.
 
-(* `$ x` : pest's typename pair spans (0,3), blank included, although socket_type is (0,1) and id is (2,3) *)
-Lemma typename_span_covers_blank :
-  run 20 (fun _ => PEmpty) typename_rule [36; 32; 120] 0
-  = Some (Some ([], 3, [EStart 0; EStart 0; EEnd 1; EStart 2; EEnd 3; EEnd 3]))
-  /\ tree_of_events [EStart 0; EStart 0; EEnd 1; EStart 2; EEnd 3; EEnd 3]
-     = Some [Node 0 3 [Node 0 1 []; Node 2 3 []]].
+(* ---------- identifier spans are exact ---------- *)
+Lemma run_no_rule : forall f g e s pos s' p' evs,
+  run f g e s pos = Some (Some (s', p', evs)) -> no_rule e = true -> evs = [].
+Proof.
+  induction f as [| f IH]; intros g e s pos s' p' evs H Hn; [discriminate |].
+  cbn [run] in H. destruct e as [| | lo hi | a b | a b | a | a | id a | id]; cbn [no_rule] in Hn; try discriminate.
+  - injection H as <- <- <-. reflexivity.
+  - destruct s as [| x r]; [discriminate |]. injection H as <- <- <-. reflexivity.
+  - destruct s as [| x r]; [discriminate |]. destruct ((lo <=? x) && (x <=? hi)); [| discriminate].
+    injection H as <- <- <-. reflexivity.
+  - apply andb_prop in Hn as [Ha Hb].
+    destruct (run f g a s pos) as [[[[s1 p1] ev1] |] |] eqn:R1; try discriminate.
+    destruct (run f g b s1 p1) as [[[[s2 p2] ev2] |] |] eqn:R2; try discriminate.
+    injection H as <- <- <-. rewrite (IH _ _ _ _ _ _ _ R1 Ha), (IH _ _ _ _ _ _ _ R2 Hb). reflexivity.
+  - apply andb_prop in Hn as [Ha Hb].
+    destruct (run f g a s pos) as [[r1 |] |] eqn:R1; try discriminate.
+    + injection H as ->. apply (IH _ _ _ _ _ _ _ R1 Ha).
+    + apply (IH _ _ _ _ _ _ _ H Hb).
+  - destruct (run f g a s pos) as [[[[s1 p1] ev1] |] |] eqn:R1; try discriminate.
+    + pose proof (IH _ _ _ _ _ _ _ R1 Hn) as E1. destruct (p1 =? pos).
+      * injection H as <- <- <-. exact E1.
+      * destruct (run f g (PStar a) s1 p1) as [[[[s2 p2] ev2] |] |] eqn:R2; try discriminate.
+        -- injection H as <- <- <-. rewrite E1, (IH _ _ _ _ _ _ _ R2 Hn). reflexivity.
+        -- injection H as <- <- <-. exact E1.
+    + injection H as <- <- <-. reflexivity.
+  - destruct (run f g a s pos) as [[r1 |] |] eqn:R1; try discriminate.
+    injection H as <- <- <-. reflexivity.
+Qed.
+
+Lemma run_rule : forall f g id a s pos, run (S f) g (PRule id a) s pos =
+  match run f g a s pos with
+  | None => None
+  | Some None => Some None
+  | Some (Some (s1, p1, ev1)) => Some (Some (s1, p1, EStart pos :: ev1 ++ [EEnd p1]))
+  end.
+Proof. reflexivity. Qed.
+Lemma run_seq : forall f g a b s pos, run (S f) g (PSeq a b) s pos =
+  match run f g a s pos with
+  | None => None
+  | Some None => Some None
+  | Some (Some (s1, p1, ev1)) =>
+    match run f g b s1 p1 with
+    | None => None
+    | Some None => Some None
+    | Some (Some (s2, p2, ev2)) => Some (Some (s2, p2, ev1 ++ ev2))
+    end
+  end.
+Proof. reflexivity. Qed.
+Lemma run_alt : forall f g a b s pos, run (S f) g (PAlt a b) s pos =
+  match run f g a s pos with
+  | None => None
+  | Some None => run f g b s pos
+  | Some (Some r) => Some (Some r)
+  end.
+Proof. reflexivity. Qed.
+
+(* the optional socket: either `$` as a pair [pos,pos+1) or nothing *)
+Lemma run_socket : forall f g s pos s1 p1 ev1,
+  run f g (PAlt (PRule 2 (PRange 36 36)) PEmpty) s pos = Some (Some (s1, p1, ev1)) ->
+  (p1 = pos + 1 /\ ev1 = [EStart pos; EEnd (pos + 1)]) \/ (p1 = pos /\ s1 = s /\ ev1 = []).
+Proof.
+  intros f g s pos s1 p1 ev1 H. destruct f as [| f]; [discriminate |]. rewrite run_alt in H.
+  destruct (run f g (PRule 2 (PRange 36 36)) s pos) as [[r1 |] |] eqn:R; try discriminate.
+  - injection H as ->. destruct f as [| f]; [discriminate |]. rewrite run_rule in R.
+    destruct (run f g (PRange 36 36) s pos) as [[[[s2 p2] ev2] |] |] eqn:RR; try discriminate.
+    injection R as <- <- <-. destruct f as [| f]; [discriminate |]. cbn [run] in RR.
+    destruct s as [| b r]; [discriminate |]. destruct ((36 <=? b) && (b <=? 36)); [| discriminate].
+    injection RR as <- <- <-. left. split; reflexivity.
+  - destruct f as [| f]; [discriminate |]. cbn [run] in H. injection H as <- <- <-. right. auto.
+Qed.
+
+(* the typename pair is tiled exactly by its children: either  socket_type [pos,pos+1) id [pos+1,end)  or
+   id [pos,end) ; nothing between the socket and the name, nothing after the name *)
+Theorem typename_span_exact : forall f g idbody s pos s' p' evs,
+  no_rule idbody = true ->
+  run f g (typename_of idbody) s pos = Some (Some (s', p', evs)) ->
+  evs = [EStart pos; EStart pos; EEnd (pos + 1); EStart (pos + 1); EEnd p'; EEnd p']
+  \/ evs = [EStart pos; EStart pos; EEnd p'; EEnd p'].
+Proof.
+  intros f g idbody s pos s' p' evs Hn H. unfold typename_of in H.
+  destruct f as [| f1]; [discriminate |]. rewrite run_rule in H.
+  destruct (run f1 g (PSeq (PAlt (PRule 2 (PRange 36 36)) PEmpty) (PRule 3 idbody)) s pos)
+    as [[[[s3 p3] ev3] |] |] eqn:R1; try discriminate.
+  injection H as <- <- <-.
+  destruct f1 as [| f2]; [discriminate |]. rewrite run_seq in R1.
+  destruct (run f2 g (PAlt (PRule 2 (PRange 36 36)) PEmpty) s pos) as [[[[s1 p1] ev1] |] |] eqn:RS; try discriminate.
+  destruct (run f2 g (PRule 3 idbody) s1 p1) as [[[[s2 p2] ev2] |] |] eqn:RI; try discriminate.
+  injection R1 as <- <- <-.
+  destruct f2 as [| f3]; [discriminate |]. rewrite run_rule in RI.
+  destruct (run f3 g idbody s1 p1) as [[[[s4 p4] ev4] |] |] eqn:RB; try discriminate.
+  injection RI as <- <- <-. rewrite (run_no_rule _ _ _ _ _ _ _ _ RB Hn).
+  destruct (run_socket _ _ _ _ _ _ _ RS) as [[-> ->] | (-> & _ & ->)].
+  - left. reflexivity.
+  - right. reflexivity.
+Qed.
+
+(* `$x` is a typename with span (0,2); `$ x` is not a typename any more *)
+Lemma typename_examples :
+  run 20 (fun _ => PEmpty) (typename_of lower_id) [36; 120] 0
+  = Some (Some ([], 2, [EStart 0; EStart 0; EEnd 1; EStart 1; EEnd 2; EEnd 2]))
+  /\ run 20 (fun _ => PEmpty) (typename_of lower_id) [36; 32; 120] 0 = Some None.
 Proof. vm_compute. auto. Qed.
